@@ -300,6 +300,12 @@ Theorem c11_built_image_sound : forall perm b d, image_sbom perm b = Ok d ->
 Proof. exact built_image_sound. Qed.
 Print Assumptions c11_built_image_sound.
 
+(* ... and carries the extracted licensing infos of exactly the embedded documents of the installed apks *)
+Theorem c11_built_image_licensing : forall perm b lfs d l, image_sbom_full perm b lfs = Ok (d, l) ->
+  image_sbom perm b = Ok d /\ LicPreserved (used_lists (b_fs b) lfs (List.map i_apk (b_installed b))) l.
+Proof. exact built_image_licensing. Qed.
+Print Assumptions c11_built_image_licensing.
+
 (* the index document is told the index digest and every image of the images map exactly once, in
    the order of the architecture strings; Go's map iteration order [ord] does not matter *)
 Theorem c11_index_sbom_inputs : forall ord bi, (forall l, Permutation (ord l) l) ->
